@@ -268,7 +268,7 @@ def r5(R, repo):
       if isinstance(node, ast.Call) and astu.call_tail(node) == 'register_graph_node_type' and not isinstance(astu.parent(node), ast.FunctionDef) and node.keywords:
         n += 1
         got = sorted(k.arg for k in node.keywords if k.arg != 'type')
-        R.check(got == sorted(want), key_of(m.rel, 'register_graph_node_type supplies all slots'), (m, node), 'graph node registration supplies %s, needs %s' % (got, sorted(want)))
+        R.check(got == sorted(want), key_of(m.rel, 'register_graph_node_type supplies all slots'), (m, node), 'graph node registration supplies %s, needs %s' % (got, sorted(want)), evidence=not any(k.arg is None for k in node.keywords))
         for k in node.keywords:
           if k.arg in want:
             R.check(astu.src(k.value) == 'cls._graph_node_%s' % k.arg, key_of(m.rel, 'slot %s -> _graph_node_%s' % (k.arg, k.arg)), (m, node), 'slot %s is bound to %s' % (k.arg, astu.src(k.value)))
@@ -304,20 +304,20 @@ def r7(R, repo):
   t_new = [n for n in c.nodes if n.kind == 'if' and astu.src(n.ast) == 'key not in node_dict']
   t_arr = [n for n in c.nodes if n.kind == 'if' and 'isinstance(current_value, jax.Array | np.ndarray)' in astu.src(n.ast)]
   ok = len(t_new) == 1 and len(t_arr) == 1 and all(c.edge_guarded(s, t_new[0], 'T') or c.edge_guarded(s, t_arr[0], 'T') for s in sets)
-  R.check(ok, key_of(f, 'set_key only for new keys or array attributes'), f, 'an existing Variable attribute must never be re-bound by update: set_key is allowed only for new keys and plain array attributes')
+  R.judge(len(t_new) == 1 and len(t_arr) == 1, ok, key_of(f, 'set_key only for new keys or array attributes'), f, 'an existing Variable attribute must never be re-bound by update: set_key is allowed only for new keys and plain array attributes')
   uv = mod.func('_graph_update_dynamic._update_variable')
   st = [n for n in ast.walk(uv.node) if isinstance(n, (ast.Attribute, ast.Subscript)) and isinstance(n.ctx, ast.Store)]
   ok = all(astu.src(s) == 'node.raw_value' for s in st) and 'node.update_from_state(value)' in astu.src(uv.node) and len(st) == 1
   R.check(ok, key_of(uv, 'in-place update of the Variable'), uv, '_update_variable must update the existing Variable object (update_from_state / raw_value =)')
   upd = [n for x in astu.func_calls(f) if astu.call_name(x) == '_update_variable' and astu.src(x.args[0]) == 'current_value' for n in c.nodes_for(x)]
   tv = [n for n in c.nodes if n.kind == 'if' and astu.src(n.ast) == 'not isinstance(current_value, Variable)']
-  R.check(len(upd) == 1 and len(tv) == 1 and c.edge_guarded(upd[0], tv[0], 'F'), key_of(f, 'only Variables are updated in place'), f, 'a non-Variable leaf may not be updated through _update_variable')
+  R.judge(len(upd) == 1 and len(tv) == 1, len(upd) == 1 and len(tv) == 1 and c.edge_guarded(upd[0], tv[0], 'F'), key_of(f, 'only Variables are updated in place'), f, 'a non-Variable leaf may not be updated through _update_variable')
   mv = mod.func('_graph_unflatten.make_variable')
   cm = cfg_of(mv)
   reuse = [n for n in cm.nodes if isinstance(n.stmt, ast.Assign) and astu.src(n.stmt) == 'variable = outer_index_outer_ref[variabledef.outer_index]']
   fresh = [n for n in cm.nodes if isinstance(n.stmt, ast.Assign) and astu.src(n.stmt.targets[0]) == 'variable' and n not in reuse]
   ok = len(reuse) == 1 and not any(f_ in cm.reach(reuse) for f_ in fresh)
-  R.check(ok, key_of(mv, 'an outer Variable is updated and returned itself'), mv, 'when the caller\'s Variable is known (outer_index), make_variable must update and return that object, not a new one')
+  R.judge(len(reuse) == 1, ok, key_of(mv, 'an outer Variable is updated and returned itself'), mv, 'when the caller\'s Variable is known (outer_index), make_variable must update and return that object, not a new one')
 
 
 @rule('C03.R8', 'K3', 6, 'flatten / split / state / clone / iter_graph leave the source graph untouched')
@@ -336,7 +336,7 @@ def r8(R, repo):
         bad.append(n)
       if isinstance(n, ast.Call) and isinstance(n.func, ast.Attribute) and n.func.attr in ('pop_key', 'set_key', 'clear', 'init') and len(n.args) >= 1 and astu.src(n.args[0]) == p0:
         bad.append(n)
-    R.check(not bad, key_of(f, 'no store into the source node'), (f, bad[0]) if bad else f, '%s mutates its input: `%s`' % (q, astu.short(astu.enclosing_stmt(bad[0])) if bad else ''))
+    R.check(not bad, key_of(f, 'no store into the source node'), (f, bad[0]) if bad else f, '%s mutates its input: `%s`' % (q, astu.short(astu.enclosing_stmt(bad[0])) if bad else ''), evidence=True)
   cl = mod.func('clone')
   R.check('split(node)' in astu.src(cl.node) and 'merge(graphdef, state)' in astu.src(cl.node), key_of(cl, 'clone = merge(split(node))'), cl, 'clone must rebuild the graph from split(node) (no mutable object shared with the original)')
   st = mod.func('state')
